@@ -51,3 +51,12 @@ def ref(trace):
                     "gfalse": bool(e["op"] not in ("guarded", "ite") and (any(c == 0 for c in stack) or (e["op"] == "ite" and False)))})
     return {"id": trace["id"], "P": trace["cfg"]["P"], "bitlength": trace["cfg"]["bitlength"], "resolution": trace["cfg"].get("resolution", 0),
             "ign": trace["ign"], "basedepth": base, "events": evs}
+
+
+def shape(trace):
+    """View for TraceShape (C06): kinds/order of new variables, canonical constraints, result wire expressions."""
+    evs = []
+    for e in trace["events"]:
+        reslc = [[x["k"], x["lc"]] for x in e["res"]] + [[x["k"], x["lc"]] for c in e["chg"] for x in c["now"]]
+        evs.append({"op": e["op"], "name": e["name"], "out": e["out"], "order": e["order"], "ncons": e["ncons"], "reslc": reslc})
+    return {"id": trace["id"], "events": evs}
